@@ -2,7 +2,7 @@
 from __future__ import annotations
 
 import ast
-from typing import List, Optional
+from typing import Dict, List, Optional, Set, Tuple
 
 from ..ctx import Ctx, dotted, names_in
 from ..loader import FuncInfo, iter_own_nodes, own_walk
@@ -100,40 +100,97 @@ def val_debugdep(ctx: Ctx) -> RuleResult:
     return r
 
 
+def _terminates(stmts) -> bool:
+    return bool(stmts) and isinstance(stmts[-1], (ast.Continue, ast.Return, ast.Raise, ast.Break))
+
+
+def reach_conditions(fn_node: ast.AST, target: ast.AST) -> Optional[List[Tuple[ast.AST, bool]]]:
+    """Atomic (expression, polarity) conjuncts under which `target` is reached inside fn_node: tests of the enclosing ifs and
+    the negated tests of earlier guards of the same blocks that always leave (continue / return / raise / break)."""
+    from ..loader import _neg
+
+    def split(t: ast.AST, v: bool) -> List[Tuple[ast.AST, bool]]:
+        if isinstance(t, ast.UnaryOp) and isinstance(t.op, ast.Not):
+            return split(t.operand, not v)
+        if isinstance(t, ast.BoolOp) and ((isinstance(t.op, ast.And) and v) or (isinstance(t.op, ast.Or) and not v)):
+            out: List[Tuple[ast.AST, bool]] = []
+            for x in t.values:
+                out += split(x, v)
+            return out
+        return [(t, v)]
+
+    def go(stmts, acc) -> Optional[List[Tuple[ast.AST, bool]]]:
+        cur = list(acc)
+        for st in stmts:
+            if st is target:
+                return cur
+            inside = any(x is target for x in ast.walk(st))
+            if isinstance(st, ast.If):
+                if inside:
+                    if any(x is target for b in st.body for x in ast.walk(b)):
+                        return go(st.body, cur + split(st.test, True))
+                    return go(st.orelse, cur + split(st.test, False))
+                if _terminates(st.body) and not st.orelse:
+                    cur += split(st.test, False)
+                elif st.orelse and _terminates(st.orelse) and not _terminates(st.body):
+                    cur += split(st.test, True)
+            elif inside:
+                for fld in ("body", "orelse", "finalbody"):
+                    v = getattr(st, fld, None)
+                    if isinstance(v, list) and any(x is target for b in v for x in ast.walk(b)):
+                        return go(v, cur)
+                if isinstance(st, ast.Try):
+                    for h in st.handlers:
+                        if any(x is target for b in h.body for x in ast.walk(b)):
+                            return go(h.body, cur)
+                return None
+        return None
+    return go(fn_node.body, [])  # type: ignore[attr-defined]
+
+
 def val_setupdep(ctx: Ctx) -> RuleResult:
+    """A setup node that depends on a node which is neither a setup node nor a constant/argument holder is refused at build time:
+    the refusal is reached exactly under  self.setup  and  not <dependency>.setup  and  not isinstance(<dependency>, ArgExecNode)."""
     r = RuleResult("VAL-SETUPDEP")
     f = _validate_deps(ctx)
     loops = [n for n in iter_own_nodes(f.node) if isinstance(n, ast.For)]
     r.require(len(loops) == 1, "validation loop not found")
     lp = loops[0]
-    dv = dotted(lp.target)
-    ifs = [n for n in lp.body if isinstance(n, ast.If) and any(isinstance(b, ast.Raise) for b in n.body)]
-    st = [i for i in ifs if "self.setup" in norm_src(i.test)]
-    r.ob(len(st) == 1, {"refusal": norm_src(st[0].test) if st else None})
-    if not st:
+    raises = [n for n in own_walk(lp) if isinstance(n, ast.Raise)]
+    cand = []
+    for rs in raises:
+        conds = reach_conditions(f.node, rs)
+        if conds is None:
+            continue
+        srcs = [(norm_src(t), v) for t, v in conds]
+        if ("self.setup", True) in srcs:
+            cand.append((rs, srcs))
+    r.ob(len(cand) == 1, {"refusal reached under": [f"{'' if v else 'not '}{t}" for t, v in cand[0][1]] if cand else None})
+    if not cand:
         r.violate(f"{f.short}: a setup node depending on a non-setup node is not refused", f.loc(lp),
                   "its value, computed once, would freeze a per-call value", None)
         return r
-    t = st[0].test
-    ok_form = isinstance(t, ast.BoolOp) and isinstance(t.op, ast.And) and norm_src(t.values[0]) == "self.setup" \
-        and isinstance(t.values[1], ast.UnaryOp) and isinstance(t.values[1].op, ast.Not) and isinstance(t.values[1].operand, ast.Name)
-    r.require(ok_form, f"setup-dependency test not recognised: {norm_src(t)}")
-    acc = t.values[1].operand.id
-    asg = [n for n in lp.body if isinstance(n, ast.Assign) and dotted(n.targets[0]) == acc]
-    r.require(len(asg) == 1, "accepted-case definition not found")
-    v = asg[0].value
-    parts = v.values if isinstance(v, ast.BoolOp) and isinstance(v.op, ast.Or) else [v]
-    srcs = [norm_src(p) for p in parts]
-    want_setup = any(s.endswith(f"[{dv}.id].setup") for s in srcs)
-    want_arg = any(s.startswith("isinstance(") and s.endswith(", ArgExecNode)") for s in srcs)
-    extra = [s for s in srcs if not (s.endswith(f"[{dv}.id].setup") or (s.startswith("isinstance(") and s.endswith(", ArgExecNode)")))]
-    ok = want_setup and want_arg and not extra
-    r.ob(ok, {"accepted dependencies": srcs})
-    if extra:
-        r.violate(f"{f.short}: accepted dependencies of a setup node widened by {extra}", f.loc(asg[0]),
-                  "a setup node may depend only on setup nodes and on constants/arguments", srcs)
+    r.require(len(cand) == 1, "several refusals under 'self.setup'")
+    rs, srcs = cand[0]
+    dv = dotted(lp.target) or "?"
+    # local names standing for the dependency's node (dep_xn = exec_nodes[dep.id])
+    depnames = {dv} | {n.targets[0].id for n in own_walk(lp) if isinstance(n, ast.Assign) and isinstance(n.targets[0], ast.Name)
+                       and dv in {x.id for x in ast.walk(n.value) if isinstance(x, ast.Name)}}
+    conds_ast = reach_conditions(f.node, rs) or []
+    rest = [(norm_src(t), v) for t, v in conds_ast if (norm_src(t), v) != ("self.setup", True)
+            and depnames & {x.id for x in ast.walk(t) if isinstance(x, ast.Name)}]
+    dep_setup = [(t, v) for t, v in rest if t.endswith(".setup") and not t.startswith("self.") and v is False]
+    arg_hold = [(t, v) for t, v in rest if t.startswith("isinstance(") and t.endswith(", ArgExecNode)") and v is False]
+    # guards of the other refusal of the loop (debug dependencies) may precede this one
+    other = [(t, v) for t, v in rest if (t, v) not in dep_setup and (t, v) not in arg_hold and ".debug" not in t]
+    widened = [(t, v) for t, v in other if t.startswith("isinstance(") or t.endswith(".setup") or " in " in t]
+    ok = len(dep_setup) == 1 and len(arg_hold) == 1 and not other
+    if widened or (dep_setup and arg_hold and other):
+        r.ob(False, {"extra conditions": other})
+        r.violate(f"{f.short}: accepted dependencies of a setup node widened by {[('' if v else 'not ') + t for t, v in other]}", f.loc(rs),
+                  "a setup node may depend only on setup nodes and on constants/arguments", [f"{'' if v else 'not '}{t}" for t, v in srcs])
     elif not ok:
-        raise Undecided("accepted-case definition not recognised")
+        raise Undecided("setup-dependency refusal: conditions not recognised: " + "; ".join(f"{'' if v else 'not '}{t}" for t, v in srcs))
     return r
 
 
